@@ -19,6 +19,9 @@ Gen/Crc16.vos Gen/Crc16.vok Gen/Crc16.required_vos: Gen/Crc16.v
 Gen/Crc64.vo Gen/Crc64.glob Gen/Crc64.v.beautified Gen/Crc64.required_vo: Gen/Crc64.v 
 Gen/Crc64.vio: Gen/Crc64.v 
 Gen/Crc64.vos Gen/Crc64.vok Gen/Crc64.required_vos: Gen/Crc64.v 
+Gen/Rdb.vo Gen/Rdb.glob Gen/Rdb.v.beautified Gen/Rdb.required_vo: Gen/Rdb.v 
+Gen/Rdb.vio: Gen/Rdb.v 
+Gen/Rdb.vos Gen/Rdb.vok Gen/Rdb.required_vos: Gen/Rdb.v 
 Gen/Resp.vo Gen/Resp.glob Gen/Resp.v.beautified Gen/Resp.required_vo: Gen/Resp.v 
 Gen/Resp.vio: Gen/Resp.v 
 Gen/Resp.vos Gen/Resp.vok Gen/Resp.required_vos: Gen/Resp.v 
@@ -40,9 +43,15 @@ Model/Digest.vos Model/Digest.vok Model/Digest.required_vos: Model/Digest.v Base
 Model/Filter.vo Model/Filter.glob Model/Filter.v.beautified Model/Filter.required_vo: Model/Filter.v Base/Bytes.vo Base/Dec.vo Gen/Crc16.vo
 Model/Filter.vio: Model/Filter.v Base/Bytes.vio Base/Dec.vio Gen/Crc16.vio
 Model/Filter.vos Model/Filter.vok Model/Filter.required_vos: Model/Filter.v Base/Bytes.vos Base/Dec.vos Gen/Crc16.vos
+Model/Lzf.vo Model/Lzf.glob Model/Lzf.v.beautified Model/Lzf.required_vo: Model/Lzf.v Base/Bytes.vo
+Model/Lzf.vio: Model/Lzf.v Base/Bytes.vio
+Model/Lzf.vos Model/Lzf.vok Model/Lzf.required_vos: Model/Lzf.v Base/Bytes.vos
 Model/Pipe.vo Model/Pipe.glob Model/Pipe.v.beautified Model/Pipe.required_vo: Model/Pipe.v Base/Bytes.vo Model/Backlog.vo
 Model/Pipe.vio: Model/Pipe.v Base/Bytes.vio Model/Backlog.vio
 Model/Pipe.vos Model/Pipe.vok Model/Pipe.required_vos: Model/Pipe.v Base/Bytes.vos Model/Backlog.vos
+Model/Rdb.vo Model/Rdb.glob Model/Rdb.v.beautified Model/Rdb.required_vo: Model/Rdb.v Base/Bytes.vo Base/Endian.vo Base/Dec.vo Spec/Crc64.vo Model/Digest.vo Model/Lzf.vo Model/Filter.vo Gen/Crc64.vo Gen/Rdb.vo
+Model/Rdb.vio: Model/Rdb.v Base/Bytes.vio Base/Endian.vio Base/Dec.vio Spec/Crc64.vio Model/Digest.vio Model/Lzf.vio Model/Filter.vio Gen/Crc64.vio Gen/Rdb.vio
+Model/Rdb.vos Model/Rdb.vok Model/Rdb.required_vos: Model/Rdb.v Base/Bytes.vos Base/Endian.vos Base/Dec.vos Spec/Crc64.vos Model/Digest.vos Model/Lzf.vos Model/Filter.vos Gen/Crc64.vos Gen/Rdb.vos
 Model/RespCodec.vo Model/RespCodec.glob Model/RespCodec.v.beautified Model/RespCodec.required_vo: Model/RespCodec.v Base/Bytes.vo Base/Dec.vo Gen/Resp.vo
 Model/RespCodec.vio: Model/RespCodec.v Base/Bytes.vio Base/Dec.vio Gen/Resp.vio
 Model/RespCodec.vos Model/RespCodec.vok Model/RespCodec.required_vos: Model/RespCodec.v Base/Bytes.vos Base/Dec.vos Gen/Resp.vos
@@ -73,6 +82,9 @@ Proofs/DigestProofs.vos Proofs/DigestProofs.vok Proofs/DigestProofs.required_vos
 Proofs/PipeProofs.vo Proofs/PipeProofs.glob Proofs/PipeProofs.v.beautified Proofs/PipeProofs.required_vo: Proofs/PipeProofs.v Base/Bytes.vo Base/Table.vo Model/Backlog.vo Model/Pipe.vo Proofs/BacklogProofs.vo
 Proofs/PipeProofs.vio: Proofs/PipeProofs.v Base/Bytes.vio Base/Table.vio Model/Backlog.vio Model/Pipe.vio Proofs/BacklogProofs.vio
 Proofs/PipeProofs.vos Proofs/PipeProofs.vok Proofs/PipeProofs.required_vos: Proofs/PipeProofs.v Base/Bytes.vos Base/Table.vos Model/Backlog.vos Model/Pipe.vos Proofs/BacklogProofs.vos
+Proofs/RdbProofs.vo Proofs/RdbProofs.glob Proofs/RdbProofs.v.beautified Proofs/RdbProofs.required_vo: Proofs/RdbProofs.v Base/Bytes.vo Base/Endian.vo Base/Dec.vo Spec/Crc64.vo Gen/Crc64.vo Model/Digest.vo Model/Lzf.vo Model/Rdb.vo Spec/RdbFormat.vo Spec/RdbRecords.vo Proofs/Crc64Proofs.vo Proofs/DigestProofs.vo
+Proofs/RdbProofs.vio: Proofs/RdbProofs.v Base/Bytes.vio Base/Endian.vio Base/Dec.vio Spec/Crc64.vio Gen/Crc64.vio Model/Digest.vio Model/Lzf.vio Model/Rdb.vio Spec/RdbFormat.vio Spec/RdbRecords.vio Proofs/Crc64Proofs.vio Proofs/DigestProofs.vio
+Proofs/RdbProofs.vos Proofs/RdbProofs.vok Proofs/RdbProofs.required_vos: Proofs/RdbProofs.v Base/Bytes.vos Base/Endian.vos Base/Dec.vos Spec/Crc64.vos Gen/Crc64.vos Model/Digest.vos Model/Lzf.vos Model/Rdb.vos Spec/RdbFormat.vos Spec/RdbRecords.vos Proofs/Crc64Proofs.vos Proofs/DigestProofs.vos
 Proofs/RespProofs.vo Proofs/RespProofs.glob Proofs/RespProofs.v.beautified Proofs/RespProofs.required_vo: Proofs/RespProofs.v Base/Bytes.vo Base/Dec.vo Gen/Resp.vo Model/RespCodec.vo
 Proofs/RespProofs.vio: Proofs/RespProofs.v Base/Bytes.vio Base/Dec.vio Gen/Resp.vio Model/RespCodec.vio
 Proofs/RespProofs.vos Proofs/RespProofs.vok Proofs/RespProofs.required_vos: Proofs/RespProofs.v Base/Bytes.vos Base/Dec.vos Gen/Resp.vos Model/RespCodec.vos
@@ -88,6 +100,9 @@ Proofs/SlotWitnessCheck.vos Proofs/SlotWitnessCheck.vok Proofs/SlotWitnessCheck.
 Proofs/SupervisorProofs.vo Proofs/SupervisorProofs.glob Proofs/SupervisorProofs.v.beautified Proofs/SupervisorProofs.required_vo: Proofs/SupervisorProofs.v Base/Bytes.vo Model/Supervisor.vo
 Proofs/SupervisorProofs.vio: Proofs/SupervisorProofs.v Base/Bytes.vio Model/Supervisor.vio
 Proofs/SupervisorProofs.vos Proofs/SupervisorProofs.vok Proofs/SupervisorProofs.required_vos: Proofs/SupervisorProofs.v Base/Bytes.vos Model/Supervisor.vos
+Props/C01.vo Props/C01.glob Props/C01.v.beautified Props/C01.required_vo: Props/C01.v Base/Bytes.vo Base/Endian.vo Spec/Crc64.vo Gen/Crc64.vo Gen/Rdb.vo Model/Digest.vo Model/Rdb.vo Spec/RdbFormat.vo Spec/RdbRecords.vo Proofs/RdbProofs.vo Proofs/DigestProofs.vo
+Props/C01.vio: Props/C01.v Base/Bytes.vio Base/Endian.vio Spec/Crc64.vio Gen/Crc64.vio Gen/Rdb.vio Model/Digest.vio Model/Rdb.vio Spec/RdbFormat.vio Spec/RdbRecords.vio Proofs/RdbProofs.vio Proofs/DigestProofs.vio
+Props/C01.vos Props/C01.vok Props/C01.required_vos: Props/C01.v Base/Bytes.vos Base/Endian.vos Spec/Crc64.vos Gen/Crc64.vos Gen/Rdb.vos Model/Digest.vos Model/Rdb.vos Spec/RdbFormat.vos Spec/RdbRecords.vos Proofs/RdbProofs.vos Proofs/DigestProofs.vos
 Props/C09.vo Props/C09.glob Props/C09.v.beautified Props/C09.required_vo: Props/C09.v Base/Bytes.vo Model/Backlog.vo Model/Pipe.vo Proofs/PipeProofs.vo
 Props/C09.vio: Props/C09.v Base/Bytes.vio Model/Backlog.vio Model/Pipe.vio Proofs/PipeProofs.vio
 Props/C09.vos Props/C09.vok Props/C09.required_vos: Props/C09.v Base/Bytes.vos Model/Backlog.vos Model/Pipe.vos Proofs/PipeProofs.vos
@@ -118,6 +133,12 @@ Spec/Crc16.vos Spec/Crc16.vok Spec/Crc16.required_vos: Spec/Crc16.v Base/Bytes.v
 Spec/Crc64.vo Spec/Crc64.glob Spec/Crc64.v.beautified Spec/Crc64.required_vo: Spec/Crc64.v Base/Bytes.vo Base/Table.vo
 Spec/Crc64.vio: Spec/Crc64.v Base/Bytes.vio Base/Table.vio
 Spec/Crc64.vos Spec/Crc64.vok Spec/Crc64.required_vos: Spec/Crc64.v Base/Bytes.vos Base/Table.vos
+Spec/RdbFormat.vo Spec/RdbFormat.glob Spec/RdbFormat.v.beautified Spec/RdbFormat.required_vo: Spec/RdbFormat.v Base/Bytes.vo Base/Endian.vo Base/Dec.vo Spec/Crc64.vo Model/Lzf.vo
+Spec/RdbFormat.vio: Spec/RdbFormat.v Base/Bytes.vio Base/Endian.vio Base/Dec.vio Spec/Crc64.vio Model/Lzf.vio
+Spec/RdbFormat.vos Spec/RdbFormat.vok Spec/RdbFormat.required_vos: Spec/RdbFormat.v Base/Bytes.vos Base/Endian.vos Base/Dec.vos Spec/Crc64.vos Model/Lzf.vos
+Spec/RdbRecords.vo Spec/RdbRecords.glob Spec/RdbRecords.v.beautified Spec/RdbRecords.required_vo: Spec/RdbRecords.v Base/Bytes.vo Base/Endian.vo Spec/RdbFormat.vo Model/Digest.vo Model/Rdb.vo
+Spec/RdbRecords.vio: Spec/RdbRecords.v Base/Bytes.vio Base/Endian.vio Spec/RdbFormat.vio Model/Digest.vio Model/Rdb.vio
+Spec/RdbRecords.vos Spec/RdbRecords.vok Spec/RdbRecords.required_vos: Spec/RdbRecords.v Base/Bytes.vos Base/Endian.vos Spec/RdbFormat.vos Model/Digest.vos Model/Rdb.vos
 Spec/Slot.vo Spec/Slot.glob Spec/Slot.v.beautified Spec/Slot.required_vo: Spec/Slot.v Base/Bytes.vo Base/Table.vo Spec/Crc16.vo
 Spec/Slot.vio: Spec/Slot.v Base/Bytes.vio Base/Table.vio Spec/Crc16.vio
 Spec/Slot.vos Spec/Slot.vok Spec/Slot.required_vos: Spec/Slot.v Base/Bytes.vos Base/Table.vos Spec/Crc16.vos
